@@ -29,16 +29,7 @@ func Equal(fg *FunctionGenerator) OperationMatrix {
 	m.Register(FloatTypeId, IntTypeId, func(_ funcGen.Stack[Value], a, b Value) (Value, error) {
 		return Bool(a.(Float) == Float(b.(Int))), nil
 	})
-	deepEqual := &operationMatrixDeepEqual{equal: m, ef: func(st funcGen.Stack[Value], a, b Value) (bool, error) {
-		eq, err := m.Calc(st, a, b)
-		if err != nil {
-			return false, err
-		}
-		if b, ok := eq.(Bool); ok {
-			return bool(b), err
-		}
-		return false, fmt.Errorf("%v is not a bool", eq)
-	}}
+	deepEqual := &operationMatrixDeepEqual{equal: m}
 
 	ef := func(st funcGen.Stack[Value], a, b Value) (bool, error) {
 		eq, err := deepEqual.Calc(st, a, b)
@@ -50,6 +41,8 @@ func Equal(fg *FunctionGenerator) OperationMatrix {
 		}
 		return false, fmt.Errorf("%v is not a bool", eq)
 	}
+	// the elements of lists and maps are compared deeply as well
+	deepEqual.ef = ef
 	fg.equal = ef
 	fg.FunctionGenerator.SetIsEqual(ef)
 	return deepEqual
